@@ -249,6 +249,45 @@ def cmd_replay(path):
     return r.returncode
 
 
+TSAN = os.path.join(B, "tsan")
+SAN_T = "-fsanitize=thread -fno-omit-frame-pointer"
+
+
+def cmd_tsan(pid, extra):
+    """free-running ThreadSanitizer pass over the scenario bodies of one harness (assumption
+    validator, not a deciding check): vcheck.py tsan CNN [--tier t] [--only s]"""
+    os.makedirs(B, exist_ok=True)
+    lk = open(os.path.join(B, ".lock_tsan"), "w")
+    fcntl.flock(lk, fcntl.LOCK_EX)
+    if not os.path.exists(os.path.join(TSAN, "build.ninja")):
+        r = sh(f"cmake -G Ninja -S {REPO} -B {TSAN} -DCMAKE_C_COMPILER=clang -DCMAKE_CXX_COMPILER=clang++ "
+               f"-DCMAKE_BUILD_TYPE=RelWithDebInfo -DCMAKE_C_FLAGS='{SAN_T}' -DBUILD_SHARED_LIBS=OFF "
+               f"-DNNG_TESTS=OFF -DNNG_TOOLS=OFF > {B}/cfg_tsan.log 2>&1")
+        if r.returncode:
+            print(open(f"{B}/cfg_tsan.log").read()[-3000:])
+            return 2
+    if sh(f"ninja -C {TSAN} nng > {B}/ninja_tsan.log 2>&1").returncode:
+        print(open(f"{B}/ninja_tsan.log").read()[-3000:])
+        return 2
+    configure()
+    c = CHECKS[pid]
+    src = os.path.join(V, "harness", c["src"])
+    out = os.path.join(B, "bin", pid + "_tsan")
+    os.makedirs(os.path.dirname(out), exist_ok=True)
+    eng = f"{V}/engine/vs_free.c {V}/engine/vpeer.c {V}/engine/valloc.c"
+    cmd = (f"{CC} -O1 -g {SAN_T} -std=gnu11 -Wno-unused-function -Wno-unused-variable {lib_flags()} -I{V}/engine "
+           f"-DVERIF_REPO='\"{REPO}\"' {src} {eng} {TSAN}/libnng.a -lpthread -o {out} > {B}/cc_{pid}_tsan.log 2>&1")
+    if sh(cmd).returncode:
+        sys.stdout.write(open(f"{B}/cc_{pid}_tsan.log").read()[-4000:])
+        print("TSAN HARNESS BUILD FAILED")
+        return 2
+    os.makedirs(os.path.join(V, "tsan"), exist_ok=True)
+    res = os.path.join(V, "tsan", pid + ".json")
+    env = dict(os.environ, TSAN_OPTIONS="halt_on_error=0 exitcode=0 report_signal_unsafe=0 history_size=4")
+    r = subprocess.run([out, "--out", res] + extra, cwd=V, env=env)
+    return 0 if r.returncode == 0 else 2
+
+
 def main():
     a = sys.argv[1:]
     if not a:
@@ -264,6 +303,8 @@ def main():
         return cmd_run(a[1], tier)
     if a[0] == "replay":
         return cmd_replay(a[1])
+    if a[0] == "tsan":
+        return cmd_tsan(a[1], a[2:])
     return 2
 
 
